@@ -234,6 +234,9 @@ type ApplyStageRunner struct {
 	done    chan struct{}
 	running bool
 	mu      sync.Mutex
+	// onProcessed, if set, is called with the number of items that have
+	// left the apply stage (applied or skipped) before they are forwarded.
+	onProcessed func(int)
 }
 
 // NewApplyStageRunner creates a new runner for the apply stage.
@@ -267,6 +270,13 @@ func NewApplyStageRunner(
 // Must be called before Start() to avoid data races.
 func (r *ApplyStageRunner) SetMetrics(metrics *PipelineMetrics) {
 	r.metrics = metrics
+}
+
+// SetOnProcessed sets a callback that is invoked with the number of items that
+// have been processed by the apply stage, before they are forwarded to the
+// output channel. Must be called before Start() to avoid data races.
+func (r *ApplyStageRunner) SetOnProcessed(fn func(int)) {
+	r.onProcessed = fn
 }
 
 // Start starts the apply stage runner.
@@ -325,6 +335,10 @@ func (r *ApplyStageRunner) run(ctx context.Context) {
 					return
 				}
 				continue
+			}
+
+			if r.onProcessed != nil && len(processed) > 0 {
+				r.onProcessed(len(processed))
 			}
 
 			// Forward all processed items (includes input item + any buffered items
